@@ -119,10 +119,25 @@ def generator_batch_case(rng):
     cfg = gen(rng)
     while cfg["dim"] != 2:
         cfg = gen(rng)
-    g = jinns.data.CubicMeshPDEStatio(key=jax.random.PRNGKey(rng.randrange(1 << 20)), n=4, nb=8, omega_batch_size=2, omega_border_batch_size=2, dim=2,
-                                      min_pts=(-1.0, 0.5), max_pts=(2.0, 1.5))
-    g, b = g.get_batch()
-    bb = np.asarray(b.border_batch)   # (2, 2, 4)
+    # boxes whose bounds all differ, with the larger upper bound on either axis
+    lo, hi = rng.choice([((-1.0, 0.5), (2.0, 1.5)), ((-1.0, 0.5), (1.25, 3.0)), ((0.25, -2.0), (0.75, -1.0))])
+    if not cfg["statio"] and rng.random() < 0.5:
+        g = jinns.data.CubicMeshPDENonStatio(key=jax.random.PRNGKey(rng.randrange(1 << 20)), n=4, nb=8, nt=2, omega_batch_size=2, omega_border_batch_size=2,
+                                             temporal_batch_size=2, dim=2, min_pts=lo, max_pts=hi, tmin=0.0, tmax=1.0, cartesian_product=False)
+        g, b = g.get_batch()
+        bb = np.asarray(b.times_x_border_batch)[:, 1:, :]
+    else:
+        g = jinns.data.CubicMeshPDEStatio(key=jax.random.PRNGKey(rng.randrange(1 << 20)), n=4, nb=8, omega_batch_size=2, omega_border_batch_size=2, dim=2,
+                                          min_pts=lo, max_pts=hi)
+        g, b = g.get_batch()
+        bb = np.asarray(b.border_batch)   # (2, 2, 4)
+    # the boundary term of facet k is taken on facet k: every generator-made point lies on the facet whose outward normal it gets
+    fixed = [(0, lo[0]), (0, hi[0]), (1, lo[1]), (1, hi[1])]
+    for fa, (ax, val) in enumerate(fixed):
+        for r in range(bb.shape[0]):
+            pt = bb[r, :, fa]
+            if pt[ax] != val or not (lo[1 - ax] <= pt[1 - ax] <= hi[1 - ax]):
+                cfg.setdefault("_facet_fails", []).append(f"generator-made border point {pt.tolist()} handed to facet {FACETS[2][fa]} of the box {lo}-{hi} does not lie on that facet")
     ts = [cfg["points"][0][0][0]] if not cfg["statio"] else [None]
     cfg["points"] = [[([t] if t is not None else []) + bb[r, :, fa].tolist() for t in ts for r in range(bb.shape[0])] for fa in range(4)]
     return cfg
@@ -152,6 +167,8 @@ def generate(tier, seed, casedir, variant):
     N = 50 if tier == "quick" else 350
     for cid in range(N):
         cfg = generator_batch_case(rng) if cid % 10 == 9 else gen(rng)
+        for f in cfg.pop("_facet_fails", [])[:2]:
+            viol.append({"detail": f, "case": {"what": "generator-made border batch"}})
         try:
             obs = build_and_eval(cfg)
         except Exception as ex:
@@ -187,6 +204,8 @@ def generate(tier, seed, casedir, variant):
 
 
 def replay(rep, casedir, variant):
+    if rep["case"].get("what"):        # oracle-only cases (generator-made batches, separable-network comparisons) are regenerated from the seed of the run
+        return generate("quick", rep.get("seed", 0), casedir, variant)
     cfg = unjson(rep["case"])
     obs = build_and_eval(cfg)
     write_cases(casedir, "C04", "R_C04", variant, [case_term(0, cfg, obs)])
